@@ -254,7 +254,7 @@ def run_check(cfg, tier, seed):
                         return ["generator failed: " + err[-1500:]]
                     if suite.kind == "monitor":
                         return execute_monitor(t, suite)
-                    return t.execute(suite.timeout, suite.env)
+                    return t.execute(suite.timeout, suite.env, suite.stateless)
                 with ThreadPoolExecutor(max_workers=min(parts, os.cpu_count() or 4)) as ex:
                     for t, errs in zip(ties, ex.map(one, ties)):
                         tie_errors += ["%s part %d: %s" % (suite.name, t.part, e) for e in errs]
@@ -288,7 +288,7 @@ def run_check(cfg, tier, seed):
                         return ["generator failed: " + err[-500:]]
                     if suite.kind == "monitor":
                         return execute_monitor(t, suite)
-                    return t.execute(min(suite.timeout, 900), suite.env)
+                    return t.execute(min(suite.timeout, 900), suite.env, suite.stateless)
                 with ThreadPoolExecutor(max_workers=min(parts, os.cpu_count() or 4)) as ex:
                     list(ex.map(one_s, ties))
                 for t in ties:
